@@ -113,7 +113,7 @@ def segy_cases(draw):
 
 
 # ---- NumPy route -----------------------------------------------------------------------------
-DTYPES = ["int8", "int16", "int32", "int64", "uint8", "uint16", "uint32", "intc"]
+DTYPES = ["int8", "int16", "int32", "int64", "uint8", "uint16", "uint32", "intc", ">i2", ">i4", ">u4", ">i8", "<i4", "<u2"]   # incl. explicit byte orders (what np.frombuffer on SEG-Y headers gives)
 NP_FIELDS = [1, 5, 9, 21, 71, 73, 77, 181, 185, 189, 193]
 
 
